@@ -14,6 +14,7 @@ typedef struct {
 	unsigned char oct[300];
 	size_t octlen;
 	int kform;              /* oct only: how k is written (KF_*) */
+	int npad;               /* RSA only: leading zero octets put in front of n (and the private members) */
 } pk_t;
 /* k written canonically; padded with '=' to a multiple of four; followed by "===="; followed by '=' and 80 more characters
  * (the decoder stops at the first '=': the key is still the octlen bytes ahead of it) */
@@ -258,7 +259,29 @@ static int attr_list(const pk_t *p, const char **out)
 static jwk_set_t *load_pk(const pk_t *p, int priv, const char *attr)
 {
 	char *txt;
-	if (p->vk)
+	if (p->vk && p->npad) {
+		/* the same key with non-minimal integers: zero octets in front of n (d, p, q as well) */
+		json_t *j = json_deep_copy(priv ? p->vk->priv_jwk : p->vk->pub_jwk);
+		static const char *mem[] = { "n", "d", "p", "q" };
+		for (unsigned m = 0; m < sizeof mem / sizeof *mem; m++) {
+			json_t *v = json_object_get(j, mem[m]);
+			if (!v)
+				continue;
+			unsigned char raw[1200], out[1800];
+			long n = ref_b64_decode_strict(json_string_value(v), json_string_length(v), raw);
+			if (n <= 0)
+				continue;
+			memset(out, 0, p->npad);
+			memcpy(out + p->npad, raw, n);
+			char enc[2600];
+			ref_b64_encode(out, n + p->npad, enc);
+			json_object_set_new(j, mem[m], json_string(enc));
+		}
+		if (attr)
+			json_object_set_new(j, "alg", json_string(attr));
+		txt = tok_jdump(j, JSON_COMPACT);
+		json_decref(j);
+	} else if (p->vk)
 		txt = vk_jwk_text(p->vk, priv, attr, NULL);
 	else if (p->kform == KF_CANON)
 		txt = vk_oct_jwk(p->oct, p->octlen, attr, NULL);
@@ -962,6 +985,20 @@ static void enumerate_c09(void)
 			 * RSA-PSS key only becomes an RSA-PSS EVP_PKEY through an alg attribute, which this JWK lacks */
 			floor_cell(&p, RSA[a], p.vk->bits >= 2048, 1);
 		}
+	/* the same moduli written with leading zero octets: the size of an RSA key is the size of the number, not of its encoding */
+	static const int npads[] = { 1, 2, 129 };
+	for (unsigned k = 0; k < sizeof rsas / sizeof *rsas; k++)
+		for (unsigned z = 0; z < sizeof npads / sizeof *npads; z++)
+			for (int a = 0; a < 6; a += 3) {
+				if (!vf_case("RSA key %s with %d zero octet(s) in front of n, with %s", rsas[k], npads[z], tok_alg_names[RSA[a]]))
+					continue;
+				pk_t p = { 0 };
+				p.name = rsas[k];
+				p.vk = vk_get(rsas[k]);
+				p.npad = npads[z];
+				rc_rng_reseed(vf_case_index());
+				floor_cell(&p, RSA[a], p.vk->bits >= 2048, 1);
+			}
 	static const char *ecs[] = { "p256a", "p256b", "p384", "p521", "k256", "p256_x0", "p384_y0", "p521_d0", "k256_x0" };
 	for (unsigned k = 0; k < sizeof ecs / sizeof *ecs; k++)
 		for (int a = 0; a < 4; a++) {
